@@ -14,4 +14,4 @@ Extraction "model.ml"
   FixedOffsetFromName FixedOffsetToName FixedOffsetToAbbr fixed_name_spec fixed_abbr_spec fixed_from_spec
   ParsePosixSpec posix_spec nul_free ptz_determined
   load_bytes load_name reset_to_builtin_utc break_time make_time convert_cs next_transition prev_transition
-  min64 max64 big_bang parse_ast szone_of wf_ast spec_lookup spec_civil spec_convert all_changes spec_transition spec_next spec_prev.
+  fixed_abbr_spec min64 max64 big_bang parse_ast szone_of wf_ast spec_lookup spec_civil spec_convert all_changes spec_transition spec_next spec_prev.
